@@ -1190,3 +1190,56 @@ V("r5-c12-pool-pop-from-end", "C12", "fire", GE, _POOL, "        pool = list(rng
   rule="SLICE.minus-zero", what="pool[-0:] is the whole pool")
 V("r5-c12-undecided-pool-pop-from-front", "C12", "undecided", GE, _POOL, "        pool = list(rng.choice(p, size=max_size * K, replace=False))\n        for k in sizes:\n            interventions.append(pool[:k])\n            del pool[:k]\n",
   what="disjoint prefixes of one draw without replacement: correct, but a different algorithm than the rules read")
+
+# ------------------------------------------------------------------------------- decorators (silent for every property when transparent)
+for _i in [1, 2, 3, 4, 5, 6, 7, 8, 10, 11, 12, 13, 14, 15, 16, 17, 18, 19, 20]:
+    VARIANTS.append(dict(id="traced-decorator-c%02d" % _i, prop="C%02d" % _i, expect="silent", rule=None, edits=[("@traced",)],
+                         what="every function and method behind a transparent logging decorator (*args, **kwargs forwarded verbatim)"))
+    VARIANTS.append(dict(id="shim-decorator-c%02d" % _i, prop="C%02d" % _i, expect="silent", rule=None, edits=[("@shim",)],
+                         what="a correct keyword-only deprecation shim (re-packs *args into **kwargs) on every function with two defaulted trailing parameters"))
+
+# ------------------------------------------------------------------------------- decorators: fire / silent twins
+_UT_IMP = "from functools import reduce\n"
+_ISDAG = "def is_dag(A):\n"
+
+
+def _adj_dec(conv):
+    return ("from functools import reduce, wraps\n\n\ndef _adjacency_argument(fun):\n    @wraps(fun)\n    def wrapper(A, *args, **kwargs):\n"
+            "        return fun(%s, *args, **kwargs)\n    return wrapper\n" % conv)
+
+
+for _p in ("C03", "C07", "C10", "C15"):
+    V("dec-%s-isdag-int-cast" % _p.lower(), _p, "fire", UT, _UT_IMP, _adj_dec("np.asarray(A, dtype=int)"), more=[(UT, _ISDAG, "@_adjacency_argument\n" + _ISDAG)],
+      rule="PAT", what="is_dag behind a decorator that truncates the weights to integers")
+    V("dec-%s-silent-isdag-asarray" % _p.lower(), _p, "silent", UT, _UT_IMP, _adj_dec("np.asarray(A)"), more=[(UT, _ISDAG, "@_adjacency_argument\n" + _ISDAG)],
+      what="is_dag behind a decorator that only converts to an array")
+_SEEDED = ("from functools import reduce, wraps\n\n\ndef seeded(sampler):\n    @wraps(sampler)\n    def seeded_sampler(*args, **kwargs):\n"
+           "        random_state = kwargs.get('random_state', None)\n        if random_state is not None:\n            np.random.seed(random_state)\n"
+           "        return sampler(*args, **kwargs)\n    return seeded_sampler\n")
+_SEEDED_OK = ("from functools import reduce, wraps\n\n\ndef seeded(position):\n    def decorator(sampler):\n        @wraps(sampler)\n        def seeded_sampler(*args, **kwargs):\n"
+              "            random_state = kwargs['random_state'] if 'random_state' in kwargs else (args[position] if len(args) > position else None)\n"
+              "            if random_state is not None:\n                np.random.seed(random_state)\n"
+              "            return sampler(*args, **kwargs)\n        return seeded_sampler\n    return decorator\n")
+_ANM_SEEDLINE = "        np.random.seed(random_state) if random_state is not None else None\n"
+for _p in ("C02", "C13"):
+    V("dec-%s-seed-read-from-kwargs-only" % _p.lower(), _p, "fire", UT, _UT_IMP, _SEEDED, rule="R1",
+      more=[(AN, ANM_SIG, "    @utils.seeded\n" + ANM_SIG), (AN, _ANM_SEEDLINE, "")], what="a positional random_state never reaches np.random.seed")
+    V("dec-%s-silent-seed-by-position-or-keyword" % _p.lower(), _p, "silent", UT, _UT_IMP, _SEEDED_OK,
+      more=[(AN, ANM_SIG, "    @utils.seeded(5)\n" + ANM_SIG), (AN, _ANM_SEEDLINE, "")], what="the seeding decorator finds random_state by keyword or at its position (self included)")
+_LG_SWAP = ("import functools\n\n\ndef _none_as_empty(sample):\n    @functools.wraps(sample)\n"
+            "    def wrapper(self, n=100, population=False, do_interventions=None, %s, random_state=None):\n"
+            "        return sample(self, n, population, do_interventions=dict(do_interventions or {}), shift_interventions=dict(shift_interventions or {}),\n"
+            "                      noise_interventions=dict(noise_interventions or {}), random_state=random_state)\n    return wrapper\n\n\nimport sempler.utils as utils\n")
+V("dec-c01-wrapper-signature-swapped", "C01", "fire", LG, "import sempler.utils as utils\n", _LG_SWAP % "noise_interventions=None, shift_interventions=None",
+  more=[(LG, LG_SIG, "    @_none_as_empty\n" + LG_SIG)], rule="CASES", what="positional shift / noise interventions are swapped by the wrapper's own signature")
+V("dec-c01-silent-wrapper-none-as-empty", "C01", "silent", LG, "import sempler.utils as utils\n", _LG_SWAP % "shift_interventions=None, noise_interventions=None",
+  more=[(LG, LG_SIG, "    @_none_as_empty\n" + LG_SIG)], what="None-normalising wrapper with the documented parameter order")
+_DESCR = ("import functools\nimport numpy as np\n\n\ndef _merge(params, *updates):\n    for update in updates:\n        params.update(update)\n    return params\n\n\n"
+          "def _described(factory):\n    names = factory.__code__.co_varnames[:factory.__code__.co_argcount]\n    defaults = dict(zip(names, factory.__defaults__ or ()))\n\n"
+          "    @functools.wraps(factory)\n    def wrapper(*args, **kwargs):\n        params = _merge(%s, zip(names, args), kwargs)\n        return factory(**params)\n    return wrapper\n")
+_NO_FACT = [(NO, "def normal(mean=0, var=1):", "@_described\ndef normal(mean=0, var=1):"), (NO, "def uniform(lo=0, hi=1):", "@_described\ndef uniform(lo=0, hi=1):"),
+            (NO, "def laplace(mean=0, scale=1):", "@_described\ndef laplace(mean=0, scale=1):")]
+V("dec-c20-defaults-dict-updated-in-place", "C20", "fire", NO, "import numpy as np\n", _DESCR % "defaults", more=_NO_FACT, rule="DECOR.state",
+  what="explicit arguments of one call become the defaults of the next")
+V("dec-c20-silent-defaults-dict-copied", "C20", "silent", NO, "import numpy as np\n", _DESCR % "dict(defaults)", more=_NO_FACT,
+  what="the defaults are copied before the call's arguments are merged in")
